@@ -17,6 +17,8 @@ func main() {
 	}
 	var ck *sim.Check
 	switch os.Args[1] {
+	case "C11":
+		ck = harness.C11()
 	case "C14":
 		ck = harness.C14()
 	default:
